@@ -83,8 +83,9 @@ ob("enc_rl_max_literal", ["C05"], "enc.rs", unwind=131, unwindset=[(r"^enc::run_
 for h, t in [("enc_flate_p12_c1_b8_w2", "quick"), ("enc_flate_p15_c1_b8_w3", "quick"), ("enc_flate_p15_c3_b8_w1", "quick"),
              ("enc_flate_p11_c2_b8_w2", "thorough"), ("enc_flate_p10_c1_b8_w2", "quick"), ("enc_flate_p15_c1_b4_w4", "quick"),
              ("enc_flate_p15_c1_b16_w1", "thorough"), ("enc_flate_p14_c3_b8_w2_r3", "infeasible"), ("enc_flate_p1", "quick"),
-             ("enc_flate_p11_c3_b4_w2", "quick"), ("enc_flate_p14_c3_b4_w2", "thorough")]:
-    ob(h, ["C05", "C14"], "enc.rs", unwind=12 if "r3" not in h else 24, cuts=X1_ERR, stubs=[FMT_STUB], timeout=1800, mem_gb=12, tier=t,
+             ("enc_flate_p11_c3_b4_w2", "quick"), ("enc_flate_p14_c3_b4_w2", "thorough"), ("enc_flate_p13_c1_b8_w1_r3", "quick")]:
+    ob(h, ["C05", "C14"], "enc.rs", unwind=12 if "r3" not in h else 24, cuts=X1_ERR, stubs=[FMT_STUB], timeout=2400,
+       mem_gb=12 if "r3" not in h else 28, tier=t,
        functions=["enc::flate_decode", "enc::inflate_bytes_zlib", "enc::inflate_bytes", "enc::unfilter",
                   "enc::PredictorType::from_u8", "libflate::deflate::Decoder (stored block path)"],
        bound="one concrete (predictor, colors, bits, columns) tuple = %s; 2-3 rows; all row tags 0..4 and all pixel bytes; "
@@ -138,8 +139,8 @@ for l in (2, 3):
     ob("lex_peek_l%d" % l, ["C03", "C01"], "lexer.rs", unwind=l + 2, unwindset=MEMCHR, unwindset_optional=True, cuts=X1_ERR,
        stubs=[FMT_STUB], tier="quick" if l <= 2 else "thorough", timeout=1800, functions=["parser::lexer::Lexer::peek"] + LEXFN,
        bound="all buffers of %d bytes" % l)
-for l in (1, 2, 3, 4):
-    ob("lex_number_class_l%d" % l, ["C03"], "lexer.rs", unwind=l + 2, cuts=X1_ERR, tier="quick" if l <= 3 else "thorough",
+for l in (1, 2, 3, 4, 11, 12):
+    ob("lex_number_class_l%d" % l, ["C03"], "lexer.rs", unwind=l + 2, cuts=X1_ERR, tier="quick" if l != 4 else "thorough",
        allow_unreachable=(l == 1),
        timeout=900, functions=["parser::lexer::Substr::is_integer", "parser::lexer::Substr::real_number", "parser::lexer::is_int"],
        bound="all regular-character tokens of %d bytes" % l)
@@ -381,6 +382,16 @@ ob("enc_m_a85_group_inverse", ["C05", "C16"], "enc.rs", engine="m2s", query="a85
    timeout=600, functions=["enc::base85_chunk", "enc::word_85", "enc::word_85::s", "enc::divmod", "enc::a85", "enc::sym_85"],
    bound="ALL 2^32 four-byte groups: word_85(base85_chunk(c)) == Some(c), every digit in '!'..='u', no arithmetic overflow "
          "(18 overflow obligations); loop-free, so no unwinding bound")
+for t_ in (1, 2):
+    ob("enc_a85_enc_tail%d_after_group" % t_, ["C16"], "enc.rs", unwind=12, cuts=X1_ERR, timeout=1800, mem_gb=12,
+       tier="quick" if t_ == 1 else "thorough",
+       functions=["enc::encode", "enc::encode_85", "enc::base85_chunk"],
+       bound="input = one concrete full group 01 02 fe ff followed by %d symbolic tail byte(s): output accepted by the reference "
+             "decoder with the input as result (zero padding of the partial group)" % t_)
+ob("enc_a85_enc_tail3_after_group", ["C16"], "enc.rs", unwind=12, cuts=X1_ERR, timeout=1800, mem_gb=12,
+   functions=["enc::encode", "enc::encode_85", "enc::base85_chunk"],
+   bound="input = concrete full group 01 02 fe ff, then 41 42 t with t symbolic (3-byte tail, four digits written): output accepted by "
+         "the reference decoder with the input as result")
 FLFN = ["enc::flate_decode", "enc::inflate_bytes_zlib", "enc::inflate_bytes", "enc::unfilter", "enc::PredictorType::from_u8"]
 for t_ in (5, 4, 2):
     ob("enc_flate_ragged_t%d" % t_, ["C01", "C05", "C14"], "enc.rs", unwind=12, cuts=X1_ERR, stubs=[FMT_STUB], timeout=1800, mem_gb=12,
